@@ -67,4 +67,34 @@ inline int SUNMatrix_cuSparse_CopyToDevice(SUNMatrix A, realtype *data, int *row
     if (data) for (sunindextype i = 0; i < A->nnz * A->nblocks; i++) A->data[i] = data[i];
     return 0;
 }
+// ---- names used by the cuSPARSE variant of naunet.cpp (C19): streams, handles, execution policies, device vectors, the batched
+// matrix and linear solver.  All of them are inert containers: the integrator is the scripted mock CVode of mock_cvode.cpp.
+typedef int cusparseHandle_t;
+typedef int cusolverSpHandle_t;
+inline int cusparseCreate(cusparseHandle_t *h) { *h = 1; return 0; }
+inline int cusparseDestroy(cusparseHandle_t) { return 0; }
+inline int cusparseSetStream(cusparseHandle_t, cudaStream_t) { return 0; }
+inline int cusolverSpCreate(cusolverSpHandle_t *h) { *h = 1; return 0; }
+inline int cusolverSpDestroy(cusolverSpHandle_t) { return 0; }
+inline int cusolverSpSetStream(cusolverSpHandle_t, cudaStream_t) { return 0; }
+inline cudaError_t cudaStreamCreate(cudaStream_t *s) { *s = 0; return cudaSuccess; }
+inline cudaError_t cudaStreamDestroy(cudaStream_t) { return cudaSuccess; }
+inline cudaError_t cudaMallocHost(void **p, size_t n) { *p = calloc(n ? n : 1, 1); return cudaSuccess; }
+inline cudaError_t cudaFreeHost(void *p) { free(p); return cudaSuccess; }
+struct SUNCudaExecPolicy : _ExecPolicyShim {};
+struct SUNCudaThreadDirectExecPolicy : SUNCudaExecPolicy { SUNCudaThreadDirectExecPolicy(size_t, cudaStream_t = 0) {} };
+struct SUNCudaBlockReduceExecPolicy : SUNCudaExecPolicy { SUNCudaBlockReduceExecPolicy(size_t, size_t = 0, cudaStream_t = 0) {} };
+inline N_Vector N_VNew_Cuda(sunindextype n, SUNContext) { return new _N_VectorShim{new realtype[n > 0 ? n : 1](), n, true, new _N_VectorContent_CudaShim{new _ExecPolicyShim}}; }
+inline N_Vector N_VNewEmpty_Cuda(SUNContext) { return new _N_VectorShim{nullptr, 0, false, new _N_VectorContent_CudaShim{new _ExecPolicyShim}}; }
+inline int N_VSetKernelExecPolicy_Cuda(N_Vector, SUNCudaExecPolicy *, SUNCudaExecPolicy *) { return 0; }
+// host and device memory are one and the same here: setting the host pointer makes the vector work on the caller's array
+inline void N_VSetHostArrayPointer_Cuda(realtype *h, N_Vector v) { if (v->own) { delete[] v->data; v->own = false; } v->data = h; }
+inline void N_VFreeEmpty(N_Vector v) { delete v; }
+inline void N_VCopyToDevice_Cuda(N_Vector) {}
+inline void N_VCopyFromDevice_Cuda(N_Vector) {}
+inline SUNMatrix SUNMatrix_cuSparse_NewBlockCSR(int nblocks, int rows, int cols, int nnz, cusparseHandle_t, SUNContext) {
+    return new _SUNMatrixShim{new realtype[(size_t)nblocks * nnz + 1](), rows, cols, nnz, new sunindextype[rows + 2](), new sunindextype[nnz + 1](), nblocks}; }
+inline int SUNMatrix_cuSparse_SetFixedPattern(SUNMatrix, int) { return 0; }
+inline SUNLinearSolver SUNLinSol_cuSolverSp_batchQR(N_Vector, SUNMatrix, cusolverSpHandle_t, SUNContext) { return (void *)1; }
+inline void SUNLinSol_cuSolverSp_batchQR_GetDeviceSpace(SUNLinearSolver, size_t *a, size_t *b) { *a = 0; *b = 0; }
 #endif
